@@ -241,6 +241,12 @@ class DocutilsRenderer(RendererProtocol):
                 self._heading_slugs
             )
 
+        # restore the "default" default role at the end of a document,
+        # as the docutils rST parser does
+        # (a ``default-role`` directive sets it for the whole process)
+        if "" in roles._roles:
+            del roles._roles[""]
+
         # ensure these settings are set for later footnote transforms
         # (on a copy: the settings object may be reused for other documents,
         # which must not inherit what this document's front-matter selected)
